@@ -270,8 +270,15 @@ def noshare(ctx):
         ci = fd.classes.get(cname)
         if ci is None:
             raise AnalysisError('anchor vanished: %s' % cname)
+        def root_name(n):
+            while isinstance(n, (ast.Attribute, ast.Subscript)):
+                n = n.value
+            return n.id if isinstance(n, ast.Name) else None
+        holders = {'self', 'cls', 'DifferenceFunctions', 'JacobianDifferenceFunctions', 'HessdiagDifferenceFunctions',
+                   'HessianDifferenceFunctions'}
+        # (stores on the holder object or class; an attribute of a local array - `view.flags.writeable = False` - is no state)
         stores = [ast.unparse(n) for n in ast.walk(ci.node)
-                  if isinstance(n, ast.Attribute) and isinstance(n.ctx, ast.Store)]
+                  if isinstance(n, ast.Attribute) and isinstance(n.ctx, ast.Store) and root_name(n) in holders]
         rep.check(not stores, 'R-NOSHARE', 'finite_difference.%s' % cname, fd.where(ci.node),
                   {'attribute_stores_in_class': stores[:3]}, 'stateless holder (shared by all rule objects)', cname,
                   key='holder-state %s' % cname)
